@@ -91,7 +91,7 @@ def is_completion_count(fn, did):
     return p is not None and p.get('did') == did
 
 
-def alias_local(fn, name, init_re=None, pred=None, multi=False):
+def alias_local(fn, name, init_re=None, pred=None, multi=False, names=None):
     """Bind the canonical name `name` to the one local of fn whose initialiser matches (regex on its rendering, or
     pred(var)), so that rules keep reading `name` when a maintainer renames the variable. Returns the decl var (or
     None when no unique candidate exists - the caller reports the anchor as vanished)."""
@@ -103,7 +103,7 @@ def alias_local(fn, name, init_re=None, pred=None, multi=False):
         for v in n['vars']:
             if v.get('init') is None:
                 continue
-            if init_re is not None and not _re.search(init_re, render(fn, v['init'])):
+            if init_re is not None and not _re.search(init_re, render(fn, v['init'], names=names)):
                 continue
             if pred is not None and not pred(v):
                 continue
@@ -1223,7 +1223,7 @@ def flat_calls(fn, pred, depth=2, _seen=(), _anchor=None, _names=None):
     """Calls satisfying pred in source order, with calls to repository helpers (own object / free functions that do
     not satisfy pred themselves) replaced by the helper's own matching calls. Returns [FlatCall]."""
     out = []
-    for c in sorted(fn.calls(), key=lambda c: (c.get('l', 0), c.get('i', 0))):
+    for c in fn.calls():        # pre-order = source order, with the body of a spliced helper at the position of its call
         if pred(fn, c):
             out.append(FlatCall(fn, c, _anchor if _anchor is not None else c, _names))
             continue
@@ -1515,3 +1515,15 @@ def returned_exprs(fn):
         if r.get('e') is not None:
             expand(r, r['e'])
     return out
+
+
+def expand_names(fn, keep=lambda v, text: True, depth=3):
+    """{did: fully expanded rendering of the initialiser} for single-definition, never-modified locals (transitively), to
+    read an expression in terms of what its named intermediate values stand for. `keep(var, text)` selects the locals."""
+    cs = const_local_subst(fn)
+    out = {}
+    for _ in range(depth):
+        for d_, e_ in cs.items():
+            out[d_] = render(fn, e_, names={k: v for k, v in out.items() if k != d_})
+    vars_ = {v['did']: v for n in fn.all_nodes() if n['k'] == 'decl' for v in n['vars'] if v.get('did') is not None}
+    return {d_: t for d_, t in out.items() if d_ in vars_ and keep(vars_[d_], t)}
